@@ -225,7 +225,7 @@ def run_harness(binary, reqs, per_req_timeout=20.0):
             answers.append(crash_kind(rc, err))
             crashes += 1
             i += 1
-            if crashes > 2000:
+            if crashes > 20000:
                 # give up restarting: mark the rest
                 answers.extend(['crash:too-many'] * (len(reqs) - i))
                 break
